@@ -30,3 +30,9 @@ claim("C16",
   "Decides structural necessary conditions of C16 for every schedule: eviction counters are only touched under their lock; in PodEvictor.Evict and evictorProxy.Evict the cap check and the increment are inside one critical section; the API call needs dry-run off and no refusal follows a count; the four migration limits sit only in the retryable chain under their own gates; only the non-retryable chain fails a job; the duplicate-job filter runs first; all four limit filters count the same phases; a job is marked passed only after a successful update; arbitration state is accessed under its mutex. It does not decide the per-round counts.",
   "trusts go/ssa, the interface-dispatch resolution by types.Implements over repo types, and the rule tables in internal/rules/c16.go",
   "DESIGN.md §4 C16")
+
+claim("C04",
+  "custom SSA rules: set-partition transition rule over the three member maps (paired delete or dominating absence test), event-started conditional-constant exploration of Permit (flag-after-loop aware), enum exhaustiveness of the status switch, strict-mode must-pass-through reject, must-lockset on the gang maps",
+  "Decides structural necessary conditions of C04 for every event order: a member can never be inserted into one of pending/waiting/bound without leaving the others; Permit cannot return Success once a gang of the group was missing or invalid, and validates every gang of the group; every core status has a case and only Success releases the group; strict mode always rejects the group on a failed or rolled-back member; the member maps are only touched under the gang lock. It does not decide the counting (>= minMember) nor interleavings across several calls.",
+  "trusts go/ssa and the rule tables in internal/rules/c04.go; two partition exemptions rely on the scheduler framework contract (no Permit/Unreserve after PostBind)",
+  "DESIGN.md §4 C04")
